@@ -51,6 +51,7 @@ SAFE_STR = {
     # the name of a pandas writer (df.to_<format>)
     "table_export_format": ["csv", "json"],
 }
+RESERVED_KEY = "__locked__"
 PLOT_IMPORT_KEYS = ("plot_backend", "plot_seaborn_enabled",
                     "plot_seaborn_style", "plot_fontfamily", "plot_fontscale",
                     "plot_seaborn_palette", "plot_legend_loc",
@@ -172,6 +173,10 @@ def gen_other_config(rng, dflt, extra_keys=True):
     if extra_keys and rng.random() < 0.4:
         out[rng.choice(["align", "plot_mode", "verbose", "my_extra"])] = (
             rng.choice([True, "xy", 3]))
+    if extra_keys and rng.random() < 0.08:
+        # a file made by dumping the loaded SETTINGS object (json.dump) also
+        # carries the container's own lock flag
+        out[RESERVED_KEY] = rng.choice([True, True, False])
     return out
 
 
